@@ -441,11 +441,19 @@ def _verdict(label, desc, base, res_imf_fn, res, scale, mg, exact, band, check_f
     if limit is not None:
         if limit == 0:
             return ('skip', why, 'first layer (%s)' % mg.where)
+        if (r.shape[1] < limit or b.shape[1] < limit) and tie is not None and not exact:
+            return ('skip', why + ':upstream', 'fewer columns than the layer of the near tie')
         if r.shape[1] < limit or b.shape[1] < limit:
             return ('fail', label + ':columns-before-near-tie-missing', '%s: %d columns, base has %d, first %d must agree (%s)'
                     % (desc, r.shape[1], b.shape[1], limit, why))
         if eq(r[:, :limit], b[:, :limit]):
             return ('skip', why, 'columns before layer %d agree' % limit)
+        if tie is not None and not exact:
+            # a decision at rounding distance was found somewhere in the base run: which layer it first influences cannot be
+            # pinned down reliably (e.g. the 'zc' mask frequency comes from a preliminary extraction and feeds EVERY layer;
+            # flat pchip envelopes carry ties from layer to layer), so nothing is demanded of such a case
+            # (clean-tree alarms of the thorough sweep, seed 37)
+            return ('skip', why + ':upstream', 'columns before layer %d differ as well' % limit)
         return ('fail', label + ':columns-before-near-tie-differ', '%s: max deviation over the first %d columns = %.3g (%s)'
                 % (desc, limit, _dev(res_imf_fn(res['imf'])[:, :limit] if exact else r[:, :limit], b[:, :limit]), why))
     if r.shape != b.shape:
